@@ -26,6 +26,7 @@ class FuzzCampaign(SubCheck):
     """Wraps another SubCheck: each enumerated case is one libFuzzer campaign run in a subprocess."""
 
     exhaustive = False
+    case_timeout_s = None  # one 'case' is a whole campaign in a subprocess with its own time limit
 
     def __init__(self, module, sub, runs_quick, runs_thorough, campaigns_quick=2, campaigns_thorough=16):
         self.module = module
